@@ -31,7 +31,10 @@ Abstracted:
     which the harness performs while settling after every op, so that an armed deadline ≤ now behaves like a real
     timer); the clock is only moved while the scheduler mutex is held;
   * times are whole seconds (`Int`), as in `Item` (`when`, `next`, `Offset` are int64 seconds), except `s.when` and the
-    timer deadline, which are milliseconds (a fractional offset reaches them through `nt.Add(sch.Offset())`).
+    timer deadline, which are milliseconds (a fractional offset reaches them through `nt.Add(sch.Offset())`), and the
+    task's offset, which the model item keeps EXACT in milliseconds (`Item.off`): the two Go fields computed from it
+    by `Schedule` are functions of it — `Offset` = `secUp off` (whole seconds, truncated toward zero, a positive
+    sub-second rest rounded UP) and `roundedUp` = `early off` (1 iff there was such a rest).
 -/
 import Kap.Gen.C17
 namespace Kap.C17
@@ -49,12 +52,19 @@ def aset {α} (l : List (Nat × α)) (k : Nat) (v : α) : List (Nat × α) := (k
 
 /-! ### items and the btree -/
 
+/-- `Item.roundedUp` for an offset of `o` ms: `sch.Offset() > time.Duration(int64(sch.Offset().Seconds()))*time.Second`. -/
+def early (o : Int) : Int := if o.tmod 1000 > 0 then 1 else 0
+
+/-- `Item.Offset` for an offset of `o` ms: `int64(sch.Offset().Seconds())` (truncated toward zero), `++` when the
+offset has a positive sub-second rest. -/
+def secUp (o : Int) : Int := o.tdiv 1000 + early o
+
 structure Item where
   whn : Int      -- `when`  = next + Offset at the time the item was made
   id : Nat
   sc : Nat       -- which schedule object (`cron`)
   next : Int
-  off : Int      -- `Offset`
+  off : Int      -- the task's offset in ms; Go keeps `Offset` = `secUp off` and `roundedUp` = `early off`
 deriving DecidableEq, Repr, Inhabited
 
 /-- Value of a field of `Item` (an `unknown` field, i.e. source the extractor did not recognise, has no meaning:
@@ -63,7 +73,7 @@ def fld : Gen.Fld → Item → Int
   | .when, it => it.whn
   | .id, it => it.id
   | .next, it => it.next
-  | .offset, it => it.off
+  | .offset, it => secUp it.off
   | .unknown _, _ => 0
 
 def lexLess : List Gen.Fld → Item → Item → Bool
@@ -93,7 +103,7 @@ def key (id : Nat) (w : Int) : Item := { whn := w, id := id, sc := 0, next := 0,
 /-! ### history events (ghost state: what an outside observer sees) -/
 
 inductive Ev where
-  | sched (id sc : Nat) (off last : Int)     -- a Schedule call succeeded
+  | sched (id sc : Nat) (off last : Int)     -- a Schedule call succeeded (`off`: the Schedulable's offset in ms)
   | schedErr (id : Nat)                      -- a Schedule call returned the Next error
   | rel (id : Nat)                           -- a Release call returned
   | clock (now : Int)                        -- the clock was moved to `now`
@@ -130,20 +140,21 @@ def schedTimer (s : St) (wms : Int) : St :=
     | some sw => decide (sw > wms)
   if rearm then { s with swhen := some wms, timer := some (if wms - s.now * 1000 ≤ 0 then s.now * 1000 else wms) } else s
 
-/-- `Schedule`. `off` is `Item.Offset = int64(sch.Offset().Seconds())` (whole seconds, truncated toward zero) and
-`frac` the rest of the offset in milliseconds (same sign, |frac| < 1000): the item is keyed and tested with `off`,
-the timer is armed with the exact offset. -/
+/-- `Schedule` of a Schedulable whose offset is `off` s + `frac` ms (`o` ms): the item is keyed and tested with
+`Offset` = `secUp o` whole seconds (a positive sub-second rest rounded up), the timer is armed with the exact offset
+(`nt.Add(sch.Offset())`). -/
 def schedule (E : Env) (s : St) (id sc : Nat) (off last frac : Int) : St :=
+  let o := off * 1000 + frac
   match E.nx sc last with
   | none => { s with trace := Ev.schedErr id :: Ev.onErr id :: s.trace }
   | some nt =>
-    let it : Item := { whn := nt + off, id := id, sc := sc, next := nt, off := off }
-    let s1 := schedTimer s ((nt + off) * 1000 + frac)
+    let it : Item := { whn := nt + secUp o, id := id, sc := sc, next := nt, off := o }
+    let s1 := schedTimer s (nt * 1000 + o)
     let q : List Item := match aget s1.index id with
       | some w => qdelete s1.queue (key id w)
       | none => s1.queue
-    { s1 with index := aset s1.index id (it.next + it.off), queue := qreplace q it,
-              trace := Ev.sched id sc off last :: s1.trace }
+    { s1 with index := aset s1.index id (it.next + secUp it.off), queue := qreplace q it,
+              trace := Ev.sched id sc o last :: s1.trace }
 
 def release (s : St) (id : Nat) : St :=
   match aget s.index id with
@@ -169,10 +180,10 @@ def visit (E : Env) (skip : List Nat) (a : PAcc) (it : Item) : PAcc :=
   | some _ => a                       -- `default:` the worker is not receiving
   | none =>
     let a1 : PAcc := { a with busy := aset a.busy (E.wk it.id) it, toDel := a.toDel ++ [it],
-                              evs := Ev.start it.id it.next it.whn :: a.evs }
+                              evs := Ev.start it.id it.next (it.whn - early it.off) :: a.evs }   -- `it.runAt()`
     match E.nx it.sc it.next with
     | none => { a1 with evs := Ev.onErr it.id :: a1.evs }     -- dropped
-    | some n => { a1 with toIns := a1.toIns ++ [{ it with next := n, whn := n + it.off }] }
+    | some n => { a1 with toIns := a1.toIns ++ [{ it with next := n, whn := n + secUp it.off }] }
 
 /-- The due test of `iterator`, REGENERATED from the source (`Gen.dueSum`, `Gen.dueStop`; in the snapshot
 `if time.Unix(it.next+it.Offset, 0).After(ts) { return false }`, i.e. due iff next + Offset ≤ now). -/
